@@ -75,7 +75,8 @@ H5INIT = "dclab/rtdc_dataset/fmt_hdf5/__init__.py"
 H5EVENTS = "dclab/rtdc_dataset/fmt_hdf5/events.py"
 
 SCALAR = {"deform", "area_um", "bright_avg", "circ", "aspect", "volume",
-          "userdef1", "userdef2", "basinmap0", "time", "emodulus",
+          "userdef1", "userdef2", "basinmap0", "basinmap1", "time",
+          "emodulus",
           "bright_sd", "area_ratio", "ml_score_abc"}
 NONSCALAR = {"image", "trace", "mask", "contour"}
 
@@ -138,6 +139,7 @@ def make_source(variant="base", n=5):
     add(ev, "aspect", (n,), F, "s", chunks=(2,), filters=z3)
     add(ev, "volume", (n,), F, "v", chunks=(n,))
     add(ev, "basinmap0", (n,), H.DType("i"), "m", chunks=(n,))
+    add(ev, "basinmap1", (n,), H.DType("i"), "q", chunks=(n,))
     add(ev, "image", (n, 2), H.DType("u"), "i", chunks=(2, 1), k=2,
         attrs={"CLASS": "IMAGE", "IMAGE_VERSION": "1.2"})
     add(ev, "not_a_feature", (n,), F, "x")
@@ -1194,6 +1196,146 @@ def eval_compress(ctx, repo, agg):
 
 
 
+class MSkipDS:
+    """model dataset for cli.common.skip_empty_image_events"""
+    _strict_attrs = True
+
+    def __init__(self, fmt, feats, offset, corrupt_last, wlog, token):
+        self.format = fmt
+        self.feats = feats
+        self.config = ({"fmt_tdms": {"video frame offset": offset}}
+                       if fmt == "tdms" else {})
+        n = 4
+        self.n = n
+        self.filter = L.namespace("filter")
+        self.filter.manual = L.Arr([True] * n)
+        self.calls = []
+        self._corrupt = corrupt_last
+        self._wlog = wlog
+        self._token = token
+
+    def __len__(self):
+        return self.n
+
+    def __contains__(self, feat):
+        return feat in self.feats
+
+    def __getitem__(self, feat):
+        if feat not in self.feats:
+            raise L.ModelFault("KeyError", f"Feature '{feat}' does not "
+                               f"exist in this dataset")
+        frames = self.feats[feat]
+        ds = self
+
+        class Frames:
+            _strict_attrs = True
+
+            def __getitem__(self_, idx):
+                if feat == "image" and ds._corrupt and idx in (
+                        ds.n - 1, -1):
+                    ds._wlog.append(L.namespace(
+                        "warning", category=ds._token))
+                return frames[idx]
+
+            def __len__(self_):
+                return len(frames)
+        return Frames()
+
+    def apply_filter(self, *a, **k):
+        self.calls.append(tuple(self.filter.manual.data))
+
+
+def eval_skip_empty(ctx, repo, agg):
+    """R8.8: the boundary-image filter of tdms2rtdc only ever excludes the
+    first / last event and only because of an (empty) image or an all-zero
+    contour - evaluated on all model datasets"""
+    node = repo.func(COMMON, "skip_empty_image_events")
+    it = L.Interp(repo)
+    token = object()
+    wlog = []
+    ext = {"np": L.NPModel(),
+           "warnings": L.namespace(
+               "warnings", warn=lambda *a, **k: None,
+               simplefilter=lambda *a, **k: None,
+               catch_warnings=lambda **k: MCatch(wlog)),
+           "fmt_tdms": L.namespace("fmt_tdms", event_image=L.namespace(
+               "event_image", CorruptFrameWarning=token))}
+    env = it.env(COMMON, ext)
+    fn = env.lookup("skip_empty_image_events")
+    zero, full = L.Arr([0, 0, 0]), L.Arr([0, 7, 3])
+    n_eval = 0
+    for fmt, has_img, has_cnt, off, i0z, ilz, c0z, corrupt, ini, fin in \
+            itertools.product(("tdms", "hdf5"), (True, False), (True, False),
+                              (0, 1), (True, False), (True, False),
+                              (True, False), (True, False), (True, False),
+                              (True, False)):
+        if fmt != "tdms" and (off or corrupt):
+            continue
+        if not has_img and (i0z or ilz or corrupt):
+            continue
+        if not has_cnt and c0z:
+            continue
+        feats = {"deform": [1, 2, 3, 4]}
+        if has_img:
+            feats["image"] = [zero if i0z else full, full, full,
+                              zero if ilz else full]
+        if has_cnt:
+            feats["contour"] = [zero if c0z else full, full, full, full]
+        del wlog[:]
+        ds = MSkipDS(fmt, feats, off, corrupt, wlog, token)
+        n_eval += 1
+        res = L.run(lambda: fn(ds, initial=ini, final=fin))
+        desc = (f"{fmt} dataset, features {sorted(feats)}"
+                + (f", video frame offset {off}" if fmt == "tdms" else "")
+                + (", first image empty" if i0z else "")
+                + (", last image empty" if ilz else "")
+                + (", first contour all zero" if c0z else "")
+                + (", last frame corrupt" if corrupt else "")
+                + f", initial={ini}, final={fin}")
+        if res[0] != "ok":
+            agg.add("R8.8", "boundary filter completes", node, False,
+                    f"skip_empty_image_events fails: {desc}: {_res(res)}")
+            continue
+        agg.add("R8.8", "boundary filter completes", node, True, "")
+        man = ds.filter.manual.data
+        excl = {i for i, k in enumerate(man) if not k}
+        agg.add("R8.8", "only boundary events are excluded", node,
+                excl <= {0, ds.n - 1},
+                f"{desc}: events {sorted(excl)} are excluded")
+        agg.add("R8.8", "exclusions are applied", node,
+                not excl or (ds.calls and ds.calls[-1] == tuple(man)),
+                f"{desc}: manual exclusion without apply_filter()")
+        no_reason = not has_img and not (has_cnt and c0z)
+        if no_reason:
+            agg.add("R8.8", "no image, no empty contour: nothing excluded",
+                    node, not excl,
+                    f"{desc}: event(s) {sorted(excl)} are excluded although "
+                    f"the dataset has no image that could be empty - valid "
+                    f"events are dropped from the converted file")
+        if has_img and not (i0z or ilz or off or corrupt or c0z):
+            agg.add("R8.8", "intact boundary images: nothing excluded", node,
+                    not excl, f"{desc}: event(s) {sorted(excl)} excluded")
+        if has_img and i0z:
+            agg.add("R8.8", "empty first image follows `initial`", node,
+                    (0 in excl) == ini, f"{desc}: first event "
+                    f"{'excluded' if 0 in excl else 'kept'}")
+        if has_img and fmt == "tdms" and off:
+            agg.add("R8.8", "missing first video frame follows `initial`",
+                    node, (0 in excl) == ini, f"{desc}: first event "
+                    f"{'excluded' if 0 in excl else 'kept'}")
+        if has_img and fmt != "tdms" and ilz:
+            agg.add("R8.8", "empty last image follows `final`", node,
+                    (ds.n - 1 in excl) == fin, f"{desc}: last event "
+                    f"{'excluded' if ds.n - 1 in excl else 'kept'}")
+        if has_img and fmt == "tdms":
+            agg.add("R8.8", "corrupt last frame follows `final`", node,
+                    (ds.n - 1 in excl) == (fin and corrupt),
+                    f"{desc}: last event "
+                    f"{'excluded' if ds.n - 1 in excl else 'kept'}")
+    ctx.stat("skip_empty_image_events evaluations", n_eval)
+
+
+
 # ----------------------------------------------------------------------
 # R8.5 defect table identity, R8.8 tdms2rtdc
 
@@ -1584,6 +1726,7 @@ GOOD = {
     "R8.6": "as documented on every option combination",
     "R8.7": "copy is a fixpoint of the compression predicate",
     "R8.20": "holds for every combination of earlier logs and warnings",
+    "R8.8": "holds on every model dataset",
 }
 
 
@@ -1605,7 +1748,7 @@ def run(ctx):
              "is_properly_compressed; second pass is the identity",
              minimum=4)
     ctx.rule("R8.8", "tdms2rtdc exports the dataset's feature list, honours "
-             "the boundary filter, keeps the logs", minimum=6)
+             "the boundary filter, keeps the logs", minimum=12)
     ctx.rule("R8.20", "dclab-compress: logs of earlier runs are kept under "
              "another name, this run's logs are fresh, other logs untouched",
              minimum=6)
@@ -1617,6 +1760,7 @@ def run(ctx):
     eval_rtdc_copy(ctx, repo, agg)
     eval_condense(ctx, repo, agg)
     eval_compress(ctx, repo, agg)
+    eval_skip_empty(ctx, repo, agg)
     agg.flush(ctx, GOOD)
     r83_taint(ctx, repo)
     r83_tasks(ctx, repo)
@@ -2015,4 +2159,48 @@ TWINS = list(TWINS) + [
       ('    h5_cond.require_group("logs")\n',
        '    for grp_name in ("logs", "events"):\n'
        "        h5_cond.require_group(grp_name)\n")]),
+]
+
+# round-3 seeded changes (/verif/seeded/C08_7, C08_9)
+MUTANTS = list(MUTANTS) + [
+    ("boundary filter: frame offset applied to image-less data (seeded)",
+     COMMON,
+     ('        if (("image" in ds and ds.format == "tdms"',
+      '        if ((ds.format == "tdms"'), "R8.8"),
+    ("boundary filter: empty last image ignored", COMMON,
+     ('            elif np.all(ds["image"][idfin] == 0):\n'
+      "                ds.filter.manual[idfin] = False\n"
+      "                ds.apply_filter()\n", ""), "R8.8"),
+    ("boundary filter: second event excluded", COMMON,
+     ("            ds.filter.manual[0] = False\n",
+      "            ds.filter.manual[1] = False\n"), "R8.8"),
+    ("boundary filter: exclusion not applied", COMMON,
+     ("            ds.filter.manual[0] = False\n"
+      "            ds.apply_filter()\n",
+      "            ds.filter.manual[0] = False\n"), "R8.8"),
+    ("basinmap features as a lazy generator over the mutated list (seeded)",
+     COPIER,
+     ("    src_basin_feats = [f for f in events_src if bn_regexp.match(f)]",
+      "    src_basin_feats = (f for f in events_src if bn_regexp.match(f))"),
+     "R8.6"),
+    ("basinmap features removed while iterating the same list", COPIER,
+     ("        for feat in src_basin_feats:\n"
+      "            if feat in feature_iter:\n"
+      "                feature_iter.remove(feat)\n",
+      "        for feat in feature_iter:\n"
+      "            if bn_regexp.match(feat):\n"
+      "                feature_iter.remove(feat)\n"), "R8.6"),
+]
+
+TWINS = list(TWINS) + [
+    ("basinmap features stripped by rebuilding the list", COPIER,
+     ("        for feat in src_basin_feats:\n"
+      "            if feat in feature_iter:\n"
+      "                feature_iter.remove(feat)\n",
+      "        feature_iter = [feat for feat in feature_iter\n"
+      "                        if feat not in src_basin_feats]\n")),
+    ("boundary filter: image presence tested once", COMMON,
+     ('        if (("image" in ds and ds.format == "tdms"',
+      '        has_image = "image" in ds\n'
+      '        if ((has_image and ds.format == "tdms"')),
 ]
